@@ -432,6 +432,26 @@ class Fn:
     def vars_of_place(self, place):
         return self.vars_of_operand({"k": "copy", "place": place})
 
+    def capture_slots(self):
+        """What a closure captured, one entry per value: {"i": index of the captured operand
+        in the closure aggregate, "steps": place steps below the closure environment,
+        "ty": type}.  A captured struct that does not exist on the pinned tree (a bundle of
+        values introduced by a refactoring) is expanded into its fields."""
+        known = self.prog.known_adts()
+        out = []
+
+        def expand(i, steps, ty, depth):
+            adt = ty.get("adt")
+            a = self.prog.facts.adts.get(adt) if adt else None
+            if a is not None and a.get("kind") == "struct" and adt not in known and depth < 2:
+                for fl in a["variants"][0]["fields"]:
+                    expand(i, steps + (("field", fl["name"]),), fl["ty"], depth + 1)
+            else:
+                out.append({"i": i, "steps": steps, "ty": ty})
+        for i, (c, t) in enumerate(zip(self.body.get("captures", []), self.body.get("upvar_tys", []))):
+            expand(i, (("field", c),), t, 0)
+        return out
+
     def storage_of_place(self, place):
         """Origins of a place *as storage*: like origins_of_place, but a call that returns an
         owned value (clone, to_owned, a getter returning a copy) is not looked through -
@@ -812,6 +832,13 @@ class Fn:
             vmap = None
             if org == want_origins:
                 vmap = lambda n: n
+            elif want_origins and want_origins < org and all(
+                    o[0][0] == "agg" and len(o) == 1 and o[0][4].split("::")[-1] != variant and o[0][4].rsplit("::", 1)[0] in ("std::option::Option", "std::result::Result")
+                    for o in org - want_origins):
+                # the value is this one or a literal of another variant (`x.and_then(..)`
+                # spelled out: `None` when there was nothing to ask): the `variant` edge still
+                # means "this value, and it is `variant`"
+                vmap = lambda n: n if n == variant else None
             else:
                 # `?`: discriminant of ControlFlow returned by Try::branch(x)
                 if len(org) == 1:
@@ -1000,6 +1027,17 @@ class Fn:
 
 
 class Program:
+    _known_adts = None
+
+    def known_adts(self):
+        if Program._known_adts is None:
+            import json as _json
+            import os as _os
+            here = _os.path.dirname(_os.path.dirname(_os.path.abspath(__file__)))
+            with open(_os.path.join(here, "known_functions.json")) as f:
+                Program._known_adts = set(_json.load(f).get("adts", []))
+        return Program._known_adts
+
     def __init__(self, facts):
         self.facts = facts
         self.fns = {}
